@@ -370,3 +370,67 @@ def r12_3(ctx):
                     ok = p.terminal == "return" and not sr
                 ctx.require(ok, f"_handle_frame_sent:{scen}:done={done}", f"confirmation for ({dest!r}, {tag!r}) [{scen}], future {'done' if done else 'open'}: "
                             f"completes {[e.callee for e in sr]}, {p.terminal} {p.value!r}", func=f, trace=p.trace(12))
+
+
+@rule("R12.6", ["C12"], "T-FUN", floor=1)
+def r12_6(ctx):
+    """The extended-timeout set-up command, as a history on one handler object: the address-table size query fails once
+    (the last-ditch path is taken), then the set-up runs again for another device.  The second run must not raise and
+    must replace an entry at an index inside the table the NCP then reports: a failed query may not leave anything behind
+    that later runs trust (a cached size of 0 makes every later extended-timeout unicast fail before it is sent)."""
+    repo = ctx.repo
+    es = repo.cls(NAMED, "EzspStatus").members()
+    done = set()
+    for v in VERSIONS:
+        c = repo.cls(f"bellows.ezsp.v{v}", f"EZSPv{v}")
+        try:
+            m = c.method("set_extended_timeout")
+        except KeyError:
+            raise AnalysisError(f"anchor vanished: EZSPv{v}.set_extended_timeout")
+        if id(m.node) in done:
+            continue
+        done.add(id(m.node))
+        ctx.fn(m)
+        state = {"q": 0}
+
+        def size_query(px_, t, a, k, fr):
+            state["q"] += 1
+            return Outcomes(OK((es["ERROR_INVALID_ID"], 0))) if state["q"] == 1 else Outcomes(OK((es["SUCCESS"], 8)))
+
+        def randint(px_, t, a, k, fr):
+            lo, hi = a[0], a[1]
+            if isinstance(lo, int) and isinstance(hi, int):
+                return Outcomes(RAISE("ValueError")) if hi < lo else Outcomes(OK(hi))
+            return Outcomes(OK(Sym("random_index")))
+
+        px = PX(repo, inline=same_class(),
+                models=[("self.getExtendedTimeout", Outcomes(OK((False,)))), ("self.lookupNodeIdByEui64", Outcomes(OK((0xFFFF,)))),
+                        ("self.getConfigurationValue", size_query), ("random.randint", randint), ("random.randrange", lambda px_, t, a, k, fr: Outcomes(OK(0))),
+                        ("self.setExtendedTimeout", Outcomes(OK((Sym("st"),)))), ("self.replaceAddressTableEntry", Outcomes(OK((Sym("st"), Sym("a"), Sym("b"), Sym("c")))))])
+        px.inline.root = m
+
+        def entry():
+            state["q"] = 0
+            me = self_obj(c, {"_address_table_size": None})
+            px.top_frame = None
+            px.call_function(m, me, [Sym("nwk1"), Sym("ieee1")], {}, None)
+            px.emit("mark", "second-run")
+            px.call_function(m, me, [Sym("nwk2"), Sym("ieee2")], {}, None)
+            return None
+
+        for p in px._run(entry):
+            ctx.paths += 1
+            i2 = next((i for i, e in enumerate(p.events) if e.kind == "mark"), len(p.events))
+            second = [e for e in p.events[i2:] if e.kind == "await"]
+            rep = [e for e in second if e.what.endswith("replaceAddressTableEntry")]
+            bad = None
+            if p.terminal != "return":
+                bad = f"raises {p.value!r}"
+            elif rep:
+                idx = rep[0].kwargs.get("addressTableIndex", rep[0].args[0] if rep[0].args else None)
+                if not (isinstance(idx, int) and 0 <= idx < 8):
+                    bad = f"the second run replaces address-table entry {idx!r}, outside the 8-entry table the NCP reported"
+            elif not any(e.what.endswith("setExtendedTimeout") for e in second):
+                bad = f"the second run issues {[e.what for e in second]}: the extended timeout is never set"
+            ctx.require(not bad, f"set_extended_timeout:failed-query-then-retry:v{v}", f"v{v} set_extended_timeout after a failed table-size query: {bad}", func=m,
+                        trace=p.trace(20))
